@@ -104,9 +104,17 @@ impl Scenario for C09 {
         }
         if !crossing.is_empty() {
             rep.count("c09.crossing_close_then_reuse", 1);
-            let failed = res.hist.conn.iter().any(|c| matches!(c, ConnRec::OpenChannel { result: Err(_), for_thread: 0, .. }) || matches!(c, ConnRec::Close { result: Err(_), .. }));
-            if failed {
-                rep.violate("id-reuse", "reuse-after-crossing-close", format!("channel {:?}: client Close crossed the server's Close, the id was re-opened before the server's CloseOk for the client's Close arrived; that CloseOk was applied to the new channel: {:?}", crossing, res.hist.conn.iter().filter(|c| !matches!(c, ConnRec::Open { .. })).map(|c| format!("{:?}", c).chars().take(140).collect::<String>()).collect::<Vec<_>>()));
+            // the recorded finding has one shape: the crossed CloseOk is taken for the reply to the new
+            // incarnation's Channel.Open, so that open_channel(Some(n)) fails with FrameUnexpected (and the
+            // OpenOk that follows kills the connection).  Any other failure on such a run is something else.
+            let known_shape = res.hist.conn.iter().any(|c| matches!(c, ConnRec::OpenChannel { requested: Some(id), for_thread: 0, result: Err(e), .. } if crossing.contains(id) && e == "FrameUnexpected"));
+            // (a re-opened incarnation may itself be closed by the server's late scripted close: an open or
+            // close that fails with ServerClosedChannel is the server's doing, not a disturbance)
+            let failed = res.hist.conn.iter().any(|c| matches!(c, ConnRec::OpenChannel { result: Err(e), for_thread: 0, .. } if !e.starts_with("ServerClosedChannel(")) || matches!(c, ConnRec::Close { result: Err(_), .. }));
+            if known_shape {
+                rep.violate("id-reuse", "reuse-after-crossing-close", format!("channel {:?}: client Close crossed the server's Close, the id was re-opened before the server's CloseOk for the client's Close arrived; that CloseOk was applied to the new incarnation (open_channel -> FrameUnexpected); connection history: {:?}", crossing, res.hist.conn.iter().filter(|c| matches!(c, ConnRec::OpenChannel { result: Err(_), .. } | ConnRec::Close { .. })).collect::<Vec<_>>()));
+            } else if failed {
+                rep.violate("crossing-close", "connection-disturbed", format!("channel {:?}: the client's own Channel.Close crossed the server's Close (the server answers it with CloseOk, as AMQP requires) and the connection did not survive: {:?}", crossing, res.hist.conn.iter().filter(|c| matches!(c, ConnRec::OpenChannel { result: Err(_), .. } | ConnRec::Close { .. })).collect::<Vec<_>>()));
             }
             // the rest of the oracle cannot be evaluated soundly on such a run
             return rep;
